@@ -155,8 +155,21 @@ func (m *Model) IsMemberAny(a common.Address) bool {
 	return false
 }
 
+// ForkEonOverrides: the deployed networks whose check-in update fork is tied to an eon number instead of
+// the genesis fork height (app/forks.go documents the rule: with an override the genesis height does not
+// count at all). Kept here as data of the reference model, not read from the application.
+var ForkEonOverrides = map[string]uint64{
+	"shutter-gnosis-1000":         9,
+	"shutter-chiado-102000":       13,
+	"shutter-api-gnosis-1001":     13,
+	"shutter-service-chiado-1000": 9,
+	"shutter-api-gnosis-1002":     0,
+}
+
 func (m *Model) forkActive() bool {
-	// no chain-id override applies to the verification chain id
+	if eon, ok := ForkEonOverrides[m.ChainID]; ok {
+		return m.EonCounter >= eon
+	}
 	return m.ForkEnabled && m.Height+1 >= m.ForkHeight
 }
 
